@@ -400,6 +400,14 @@ func TestC06Run(t *testing.T) {
 			ending = "duration"
 		}
 		opts := options.RunOptions{MaxDuration: 80 * time.Millisecond, Concurrency: 2, IgnoreDropped: true}
+		// failure tolerances are about failed iterations: a failed setup or a failing setup cleanup
+		// fails the run whatever tolerance it was given
+		switch i % 3 {
+		case 1:
+			opts.MaxFailures = 1000
+		case 2:
+			opts.MaxFailuresRate = 100
+		}
 		if longRun {
 			opts.MaxDuration = 550 * time.Millisecond
 		}
